@@ -847,6 +847,18 @@ func (b *BlockWise[C]) processReceivedMessage(w *responsewriter.ResponseWriter[C
 	if err != nil {
 		return fmt.Errorf("cannot get payload: %w", err)
 	}
+	if blockType == message.Block1 && num == 0 && cachedReceivedMessageGuard != nil {
+		// RFC 7959 2.5: a request with block number 0 starts its body afresh. What is held under
+		// this token is the rest of an upload that was abandoned (or this is a duplicate of block
+		// 0, which then costs the re-transfer of the following blocks); continuing from it would
+		// hand the application a body made of two requests.
+		if err = payloadFile.Truncate(0); err != nil {
+			return fmt.Errorf("cannot truncate cached request: %w", err)
+		}
+		cachedReceivedMessage.ResetOptionsTo(r.Options())
+		cachedReceivedMessage.SetCode(r.Code())
+		payloadSize = 0
+	}
 	off := num * szx.Size()
 	if off == payloadSize { //nolint:nestif
 		payloadSize, err = copyToPayloadFromOffset(r, payloadFile, off)
